@@ -19,17 +19,20 @@ type handSpec struct {
 	direct      string // "" | plain | for : a <slot name="g"> in the layout file itself
 	dform       string
 	dscope      string
+	// noHandG: the layout file has <slot name="g"> but the page writes no top-level template for g
+	// (only, perhaps, one inside an include tag, which belongs to that instance): fallback expected
+	noHandG bool
 }
 
 // handover adds the hand-over to a case that already has a layout (root element first).
-func (b *builder) handover(c *Case, elem string, hs handSpec, ex exclusions, rec *ev.Rec) {
+func (b *builder) handover(c *Case, elem string, hs handSpec, ex exclusions, rec *ev.Rec) compInfo {
 	k4 := compInfo{idx: 4, file: "k4.vuego", elem: elem, slots: map[string]slotInfo{"h": {props: hs.props}}, order: []string{"h"}, multi: map[string]bool{}}
 	if c.Short {
-		k4.file = shortNames[4]
+		k4.file = b.shortFile(4)
 	}
 	c.Comps[k4.file] = b.leaf(k4, []useSpec{{name: "h", place: hs.place, fallback: hs.fallback}}, false, nil, hs.shape)
 	// the page-level template: built like any supply, then lifted out of the include tag
-	o := incOpts{p: "hx", scope: pageScope(), varName: "sp", noBare: true, title: KV{K: k4.title(), V: "pa"}, num: "pn", rec: "prec", items: "prows"}
+	o := incOpts{p: "hx", scope: pageScope(), varName: "sp", noBare: true, coll: pageCollisions(), title: KV{K: k4.title(), V: "pa"}, num: "pn", rec: "prec", items: "prows"}
 	tmp := b.include(k4, o, []supplyPlan{{name: "h", form: hs.form, scope: hs.scope}}, ex, rec)
 	c.Hand = append(c.Hand, tmp.Sup...)
 	var plans []supplyPlan
@@ -39,7 +42,7 @@ func (b *builder) handover(c *Case, elem string, hs handSpec, ex exclusions, rec
 	root := &c.Layout[0]
 	root.Kids = append(root.Kids, b.instance(k4, 8, false, plans, ex, rec, nil))
 	if hs.direct == "" {
-		return
+		return k4
 	}
 	// a slot of the layout file itself
 	lay := compInfo{idx: 5, elem: elem, slots: map[string]slotInfo{"g": {props: hs.props}}, order: []string{"g"}}
@@ -49,9 +52,11 @@ func (b *builder) handover(c *Case, elem string, hs handSpec, ex exclusions, rec
 		rec.Excluded("C06-layout-file-slot-props-not-bound")
 		dscope = ""
 	}
-	o.p = "hxg"
-	tmp = b.include(lay, o, []supplyPlan{{name: "g", form: hs.dform, scope: dscope}}, ex, rec)
-	c.Hand = append(c.Hand, tmp.Sup...)
+	if !hs.noHandG {
+		o.p = "hxg"
+		tmp = b.include(lay, o, []supplyPlan{{name: "g", form: hs.dform, scope: dscope}}, ex, rec)
+		c.Hand = append(c.Hand, tmp.Sup...)
+	}
 	scope := pageScope()
 	u := useSpec{name: "g", fallback: hs.fallback}
 	var sl Node
@@ -71,6 +76,7 @@ func (b *builder) handover(c *Case, elem string, hs handSpec, ex exclusions, rec
 		sl = b.slotNode(lay, "ly", u, scope, item, "pn", "prec.badge")
 	}
 	root.Kids = append(root.Kids, Node{K: "el", Tag: "aside", M: b.id("lyS"), Kids: []Node{sl}})
+	return k4
 }
 
 func baseLayout() []Node {
@@ -95,18 +101,32 @@ func enumHand(ex exclusions, rec *ev.Rec, yield func(Case) bool) {
 						variant++
 						k := variant
 						b := &builder{ch: fixedCh{&k}}
+						b.collide = variant%2 == 1 && !ex.compScope
+						grp := (variant - 1) / 4 // one group per spelling x scope x placement
+						b.single = grp%4 == 0
 						elem := []string{"m", "s"}[variant%2]
 						props := []string{"item", "n"}
 						if elem == "m" {
 							props = []string{"item", "n", "badge"}
 						}
-						c := Case{Comps: map[string]Comp{}, Data: fixedData(variant), Compact: variant%3 == 0, Short: variant%4 == 1}
+						c := Case{Comps: map[string]Comp{}, Data: fixedData(variant), Compact: variant%3 == 0, Short: (variant-1)/4%2 == 0}
 						c.Page = page(b, nil)
 						c.Layout = baseLayout()
 						hs := handSpec{form: form, scope: scope, props: props, place: place, fallback: variant%3 != 0,
 							shape: []string{"div", "flat", "template"}[variant%3], own: own, direct: direct,
-							dform: []string{"short", "long"}[variant%2], dscope: []string{"var", "destr", ""}[variant%3]}
-						b.handover(&c, elem, hs, ex, rec)
+							dform: []string{"short", "long"}[variant%2], dscope: []string{"var", "destr", ""}[variant%3], noHandG: direct != "" && grp%3 != 1}
+						k4 := b.handover(&c, elem, hs, ex, rec)
+						if variant%3 != 2 {
+							// the page also uses k4 itself and supplies h to THAT instance inside the
+							// tag: this template belongs to the instance and is not handed over
+							plans := []supplyPlan{{name: "h", form: []string{"short", "long"}[variant/2%2]}}
+							if hs.noHandG {
+								plans = append(plans, supplyPlan{name: "g", form: hs.dform})
+							}
+							inst := b.instance(k4, 0, false, plans, ex, rec, nil)
+							kids := c.Page[0].Kids
+							c.Page[0].Kids = append(append(append([]Node(nil), kids[:len(kids)-1]...), inst), kids[len(kids)-1])
+						}
 						c.rename(fixedNames(variant))
 						if !yield(c) {
 							return
@@ -134,5 +154,6 @@ func genHandSpec(t *rapid.T, elem string) handSpec {
 		direct:   rapid.SampledFrom([]string{"", "", "plain", "for"}).Draw(t, "hand-direct"),
 		dform:    rapid.SampledFrom([]string{"long", "short"}).Draw(t, "hand-dform"),
 		dscope:   rapid.SampledFrom([]string{"", "var", "destr"}).Draw(t, "hand-dscope"),
+		noHandG:  rapid.IntRange(0, 3).Draw(t, "hand-no-g") == 0,
 	}
 }
